@@ -12,7 +12,7 @@ VARIABLE l
 tvars == <<cvars, vars, l>>
 
 TraceInit == /\ l = 1
-             /\ list = <<>> /\ rep = 0 /\ holders = {} /\ ran = {} /\ round = 0 /\ last = NoLast
+             /\ rules = <<>> /\ holders = {} /\ ran = {} /\ round = 0 /\ last = NoLast
              /\ s = 0 /\ pc = "trace" /\ r = 0 /\ i = 0 /\ c = 0 /\ e = 0 /\ out = 0
 
 SameTasks(ev, d) ==
@@ -27,7 +27,7 @@ TraceNext ==
   /\ UNCHANGED vars
   /\ LET ev == Trace[l] IN
      CASE ev.ev = "init" ->
-            /\ list' = ev.list /\ rep' = ev.rep /\ holders' = Range(ev.holders)
+            /\ rules' = ev.rules /\ holders' = Range(ev.holders)
             /\ ran' = {} /\ round' = 0 /\ last' = NoLast
        [] ev.ev = "check" ->
             /\ Check(ev.node, Range(ev.down), Range(ev.refuse))
@@ -35,15 +35,20 @@ TraceNext ==
             /\ SameTasks(ev, last')
             /\ holders' = Range(ev.holders)
             /\ UNCHANGED <<ran, round>>
+       [] ev.ev = "task" ->        \* the node's replicator is handed a task that carries the object
+            /\ PutTask(ev.node, ev.tasks[1].nodes, ev.tasks[1].q, Range(ev.down), Range(ev.refuse))
+            /\ SameTasks(ev, last')
+            /\ holders' = Range(ev.holders)
+            /\ UNCHANGED <<ran, round>>
        [] ev.ev = "end" ->
             /\ holders = Range(ev.holders)
             /\ round' = ev.round
-            /\ UNCHANGED <<list, rep, holders, ran, last>>
+            /\ UNCHANGED <<rules, holders, ran, last>>
 TraceSpec == TraceInit /\ [][TraceNext]_tvars
 
 TraceNotStuck == l <= NEvents => ENABLED TraceNext
 \* replicator accounting, on what was really observed: SubmitSuccessfulReplication calls of task k
-ReportedOK == (l > 1 /\ l <= NEvents + 1 /\ Trace[l - 1].ev = "check") =>
+ReportedOK == (l > 1 /\ l <= NEvents + 1 /\ Trace[l - 1].ev \in {"check", "task"}) =>
                 LET ev == Trace[l - 1] IN
                 \A k \in 1..Len(ev.tasks) : /\ Len(ev.reported[k]) <= ev.tasks[k].q
                                             /\ ev.reported[k] = ev.tasks[k].ok
@@ -54,5 +59,5 @@ ConvergedAtEnd == (l > 1 /\ l <= NEvents + 1 /\ Trace[l - 1].ev = "end") =>
                     /\ Trace[l - 1].round <= MaxRounds + 1
                     /\ Converged /\ Quiet(holders)
 
-NeverEmptyT == (l > 1 /\ rep > 0) => holders # {}
+NeverEmptyT == (l > 1 /\ Len(rules) > 0) => holders # {}
 =============================================================================
